@@ -3372,7 +3372,7 @@ class ISLaEmitter(IslaLanguageListener.IslaLanguageListener):
                 )
 
             group_xpath_exprs = list(group)
-            qfd_vars = {var for _, var in group_xpath_exprs}
+            qfd_vars = {xpath_var for _, xpath_var in group_xpath_exprs} | {var}
             formula = univ_close_over_var_push_in(
                 formula, var, in_var=self.constant, qfd_vars=qfd_vars
             )
